@@ -68,6 +68,9 @@
 #include "assert.hpp"
 #include "heap.hpp"
 #include "portability_arch.hpp"
+#ifdef UNODB_DETAIL_VERIF_HOOKS
+#include "verif_hooks.hpp"
+#endif
 
 namespace unodb {
 
@@ -1043,6 +1046,9 @@ class qsbr final {
   /// Get the current QSBR state word.
   /// \note Made public for tests and asserts, do not call from the user code.
   [[nodiscard]] qsbr_state::type get_state() const noexcept {
+#ifdef UNODB_DETAIL_VERIF_HOOKS
+    unodb::verif::sched(unodb::verif::QSBR_STATE_LOAD, &state);
+#endif
     return state.load(std::memory_order_acquire);
   }
 
@@ -1050,6 +1056,9 @@ class qsbr final {
   /// since) deallocation requests for the previous epoch.
   [[nodiscard]] bool previous_interval_orphaned_requests_empty()
       const noexcept {
+#ifdef UNODB_DETAIL_VERIF_HOOKS
+    unodb::verif::sched(unodb::verif::ORPHAN_LOAD, &orphaned_previous_interval_dealloc_requests);
+#endif
     return orphaned_previous_interval_dealloc_requests.load(
                std::memory_order_acquire) == nullptr;
   }
@@ -1057,6 +1066,9 @@ class qsbr final {
   /// Check if there are no orphaned (issued by threads that have quit
   /// since) deallocation requests for the current epoch.
   [[nodiscard]] bool current_interval_orphaned_requests_empty() const noexcept {
+#ifdef UNODB_DETAIL_VERIF_HOOKS
+    unodb::verif::sched(unodb::verif::ORPHAN_LOAD, &orphaned_current_interval_dealloc_requests);
+#endif
     return orphaned_current_interval_dealloc_requests.load(
                std::memory_order_acquire) == nullptr;
   }
